@@ -12,7 +12,8 @@ for d in sorted(glob.glob('seeded/*/')):
     extra=meta.get('also_checks',[])
     caught=[]; wit=''
     for chk in [pid]+extra:
-        p=subprocess.run(['./check',chk,'quick','--mutant',d+'patch.diff'],capture_output=True,text=True)
+        patch=d+('patch.rebased.diff' if os.path.exists(d+'patch.rebased.diff') else 'patch.diff')
+        p=subprocess.run(['./check',chk,'quick','--mutant',patch],capture_output=True,text=True)
         if p.returncode==1 and 'VIOLATION property='+chk in p.stdout:
             caught.append(chk)
             if not wit:
